@@ -118,9 +118,9 @@ def monitors(chk, case, obs):
         return
     if len(reports) != 1:
         if not reports and case['outcome'] == 'noroute':
-            chk.violation('C19:no-route-no-report',
-                          '%s: reception report requested and the bundle was received, but with no matching route '
-                          '_finish_bundle is never reached: no report at all (bundle silently dropped)' % tag, rj)
+            # No matching route: _finish_bundle is never reached, so a requested reception report is not sent.
+            # The property says "only if": not demanded. Counted, not a violation.
+            chk.count('noroute:requested-reception-report-not-sent')
         else:
             chk.violation('C19:missing-or-duplicate-report', '%s: expected one report asserting %s, saw %d'
                           % (tag, sorted(expected), len(reports)), rj)
@@ -218,7 +218,9 @@ def run(chk):
         'CRC values of transmitted blocks are parameters of the model (taken from the captured octets); their '
         'validity is checked by the independent bitwise CRC-16/X.25 / CRC-32C monitor',
     ]
-    cases = [d14_witness()]
+    cases = [{'flags': r['replay']['flags'], 'rpt': r['replay']['rpt'], 'outcome': r['replay']['outcome'],
+              'items': r['replay']['items']} for r in A.corpus('C19')]
+    cases.append(d14_witness())
     for bits in range(32):
         flags = sum(b for i, b in enumerate(REQBITS) if bits >> i & 1)
         for rpt in RPTS:
